@@ -1,11 +1,210 @@
+import TinsModel.Reassembly.Spec
 import Driver.Util
-/- line-protocol driver for property C08 (stub until the area is built) -/
+/- line-protocol driver for IPv4 reassembly (C08): model mode and spec (oracle) mode.
+   ops:  case | dgram <tag> <id> <src> <dst> <proto> <tos> <df> <nopt> <hex> <lens,…> | frag <tag> <off> <len> <mf> <ttl> <eth>
+         | whole <tag> <ttl> <eth> | nonip | remove <id> <src> <dst> | clear -/
 namespace Driver.C08
-open Driver
+open Tins Tins.Reasm Driver
 
-def step (st : Unit) (_line : String) : Unit × String := (st, "unimplemented")
-def specStep (st : Unit) (_line : String) : Unit × String := (st, "unimplemented")
-def initModel : Unit := ()
-def initSpec : Unit := ()
+def kindName : Inner → String
+  | .none => "NONE"
+  | .raw _ => "RAW"
+  | .upper 17 _ => "UDP"
+  | .upper 6 _ => "TCP"
+  | .upper _ _ => "OTHER"
+
+def dumpPkt (p : Pkt) : String :=
+  if !p.hasIP then "noip" else
+  let h := p.hdr
+  let b := p.inner.bytes
+  s!"{h.id}.{h.src}.{h.dst}.{h.proto}.{h.tos}.{h.ttl}.{h.flags}.{h.off}.{4 * h.nopt}/{kindName p.inner}/{b.length}/{fnv b}"
+
+def outName : Out → String
+  | .notFragmented => "N"
+  | .fragmented => "F"
+  | .reassembled => "R"
+  | .throwMalformed => "throw:malformed_packet"
+
+def showRes (before : Pkt) (out : Out) (after : Pkt) (streams : Nat) : String :=
+  s!"st={outName out} pkt={dumpPkt after} same={if after == before then 1 else 0} streams={streams}"
+
+def unmodelledProto (p : Nat) : Bool := p == 1 || p == 4 || p == 41 || p == 50 || p == 51 || p == 58
+
+def parseLens (s : String) : Option (List Nat) := (s.splitOn ",").mapM (·.toNat?)
+
+def parseDgram (ws : List String) : Option (String × DG) :=
+  match ws with
+  | [tag, id, src, dst, proto, tos, df, nopt, hex, lens] => do
+    let id ← id.toNat?; let src ← src.toNat?; let dst ← dst.toNat?; let proto ← proto.toNat?
+    let tos ← tos.toNat?; let nopt ← nopt.toNat?; let payload ← parseHex hex; let lens ← parseLens lens
+    if nopt > 10 then none else
+    some (tag, { hdr := { tos := tos, id := id, flags := if df == "1" then 2 else 0, off := 0, ttl := 0,
+                          proto := proto, src := src, dst := dst, nopt := nopt },
+                 payload := payload, lens := lens })
+  | _ => none
+
+def findTag (tbl : List (String × DG)) (tag : String) : Option DG := (tbl.find? (·.1 == tag)).map (·.2)
+
+/-- the packet of a `frag` op as the IP parser hands it over; `none` = the harness rejects the op,
+    `some (…, none)` = the IP parser throws (an unfragmented packet whose upper layer is malformed) -/
+def fragOp (tbl : List (String × DG)) (ws : List String) : Option (DG × Nat × Nat × Bool × Nat × Option Pkt) :=
+  match ws with
+  | [tag, off, len, mf, ttl, _eth] => do
+    let d ← findTag tbl tag
+    let off ← off.toNat?; let len ← len.toNat?; let ttl ← ttl.toNat?
+    if off % 8 != 0 || off > 65528 || len > 65535 then none else
+    let p := mkFragPkt d off len (mf == "1") ttl
+    if mf == "1" || off != 0 || p.inner.isNone then some (d, off, len, mf == "1", ttl, some p) else
+    -- offset 0 without more-fragments: not a fragment, the parser decodes the upper layer
+    match upperParseConcrete d.hdr.proto p.inner.bytes with
+    | some inner => some (d, off, len, false, ttl, some { p with inner := inner })
+    | none => some (d, off, len, false, ttl, none)
+  | _ => none
+
+/-- the packet of a `whole` op: `none` = bad op, `some none` = the IP parser throws -/
+def wholeOp (tbl : List (String × DG)) (ws : List String) : Option (Option Pkt) :=
+  match ws with
+  | [tag, ttl, _eth] => do
+    let d ← findTag tbl tag
+    let ttl ← ttl.toNat?
+    if d.payload.isEmpty then some (some { hasIP := true, hdr := { d.hdr with ttl := ttl }, inner := .none }) else
+    match upperParseConcrete d.hdr.proto d.payload with
+    | none => some none
+    | some inner => some (some { hasIP := true, hdr := { d.hdr with ttl := ttl }, inner := inner })
+  | _ => none
+
+def nonipPkt : Pkt := { hasIP := false, hdr := {}, inner := .none }
+
+structure MState where
+  tbl : List (String × DG) := []
+  r : Streams := []
+
+def step (st : MState) (line : String) : MState × String :=
+  let doPkt (p : Pkt) : MState × String :=
+    let (r', p', out) := process upperParseConcrete st.r p
+    ({ st with r := r' }, showRes p out p' r'.length)
+  match words line with
+  | ["case"] => ({}, "case")
+  | "dgram" :: ws => match parseDgram ws with
+    | some (tag, d) =>
+      if unmodelledProto d.hdr.proto then (st, "unmodelled-proto") else
+      ({ st with tbl := (tag, d) :: st.tbl.filter (·.1 != tag) }, "dgram")
+    | none => (st, "bad-op")
+  | "frag" :: ws => match fragOp st.tbl ws with
+    | some (_, _, _, _, _, some p) => doPkt p
+    | some (_, _, _, _, _, none) => (st, s!"parse-throw malformed_packet streams={st.r.length}")
+    | none => (st, "bad-op")
+  | "whole" :: ws => match wholeOp st.tbl ws with
+    | some (some p) => doPkt p
+    | some none => (st, s!"parse-throw malformed_packet streams={st.r.length}")
+    | none => (st, "bad-op")
+  | ["nonip"] => doPkt nonipPkt
+  | ["clear"] => ({ st with r := clearStreams st.r }, "clear streams=0")
+  | ["remove", id, src, dst] => match id.toNat?, src.toNat?, dst.toNat? with
+    | some id, some src, some dst =>
+      let r' := removeStream st.r id src dst
+      ({ st with r := r' }, s!"remove streams={r'.length}")
+    | _, _, _ => (st, "bad-op")
+  | _ => (st, "bad-op")
+
+def initModel : MState := {}
+
+/-! oracle -/
+
+structure OState where
+  tbl : List (String × DG) := []
+  /-- tags of datagrams that have been completed at least once -/
+  completed : List String := []
+  /-- a datagram of this case was retired because a later datagram re-uses its key after its completion, and a late
+      duplicate of the retired one is still waiting in the reference state -/
+  reuse : Bool := false
+  σ : RefState := []
+  unspecified : Bool := false
+
+def kv (ws : List String) (key : String) : Option String :=
+  ws.findSome? (fun w => if w.startsWith (key ++ "=") then some ((w.drop (key.length + 1)).toString) else none)
+
+/-- compare the implementation's line with the reference observation, clause by clause -/
+def judge (st : OState) (before : Pkt) (o : Obs) (impl : String) : String :=
+  let ctx := if st.reuse then " ctx=key-reuse" else ""
+  let iw := words impl
+  match o.res with
+  | some (out, after) =>
+    let exp := showRes before out after o.streams
+    if impl == exp then "ok" else
+    let ew := words exp
+    let hd (s : Option String) := (s.map (fun x => (x.splitOn "/").headD "")).getD "?"
+    let clause :=
+      if kv iw "st" != kv ew "st" then "status"
+      else if hd (kv iw "pkt") != hd (kv ew "pkt") then "header"
+      else if kv iw "pkt" != kv ew "pkt" then "payload"
+      else if kv iw "same" != kv ew "same" then "untouched"
+      else if kv iw "streams" != kv ew "streams" then "streams"
+      else "format"
+    s!"violates {clause}{ctx} expected: {exp}"
+  | none =>
+    if kv iw "streams" == some (toString o.streams) then "ok"
+    else s!"violates streams{ctx} expected: streams={o.streams}"
+
+def specStep (st : OState) (line : String) : OState × String :=
+  match line.splitOn " ||| " with
+  | [op, impl0] =>
+    let impl := impl0.trimAscii.toString
+    match words op with
+    | ["case"] => ({}, "ok")
+    | "dgram" :: ws => match parseDgram ws with
+      | some (tag, d) =>
+        if unmodelledProto d.hdr.proto then ({ st with unspecified := true }, "unspecified") else
+        -- datagrams of the table that share the new one's reassembly key (or its tag)
+        let clash := st.tbl.filter (fun e => e.1 == tag || makeKey e.2.hdr == makeKey d.hdr)
+        let fresh := clash.all (fun e => st.completed.contains e.1)
+        let tbl' := (tag, d) :: st.tbl.filter (fun e => !(e.1 == tag || makeKey e.2.hdr == makeKey d.hdr))
+        let st' := { st with tbl := tbl', completed := st.completed.filter (· != tag),
+                             reuse := st.reuse || clash.any (fun e => (alLookup st.σ e.2).isSome),
+                             unspecified := st.unspecified || !fresh }
+        (st', if st'.unspecified then "unspecified" else "ok")
+      | none => ({ st with unspecified := true }, "unspecified")
+    | "frag" :: ws =>
+      if st.unspecified then (st, "unspecified") else
+      match fragOp st.tbl ws, ws with
+      | some (d, off, len, mf, ttl, some pkt), tag :: _ =>
+        if decide d.wf && d.pieces.contains (off, len) && mf == decide (off + len < d.payload.length) then
+          let (σ', o) := refStep upperParseConcrete st.σ (.frag d (off, len) ttl)
+          let done := match o.res with
+            | some (.reassembled, _) => true
+            | some (.throwMalformed, _) => true
+            | _ => false
+          ({ st with σ := σ', completed := if done then tag :: st.completed else st.completed }, judge st pkt o impl)
+        else ({ st with unspecified := true }, "unspecified")
+      | _, _ => ({ st with unspecified := true }, "unspecified")
+    | "whole" :: ws =>
+      if st.unspecified then (st, "unspecified") else
+      match wholeOp st.tbl ws with
+      | some (some pkt) =>
+        if notFrag pkt then
+          let (σ', o) := refStep upperParseConcrete st.σ (.other pkt)
+          ({ st with σ := σ' }, judge st pkt o impl)
+        else ({ st with unspecified := true }, "unspecified")
+      | some none => (st, "unspecified")
+      | none => ({ st with unspecified := true }, "unspecified")
+    | ["nonip"] =>
+      if st.unspecified then (st, "unspecified") else
+      let (σ', o) := refStep upperParseConcrete st.σ (.other nonipPkt)
+      ({ st with σ := σ' }, judge st nonipPkt o impl)
+    | ["clear"] =>
+      if st.unspecified then (st, "unspecified") else
+      let (σ', o) := refStep upperParseConcrete st.σ .clear
+      ({ st with σ := σ' }, judge st nonipPkt o impl)
+    | ["remove", id, src, dst] =>
+      if st.unspecified then (st, "unspecified") else
+      match id.toNat?, src.toNat?, dst.toNat? with
+      | some id, some src, some dst =>
+        let (σ', o) := refStep upperParseConcrete st.σ (.remove id src dst)
+        ({ st with σ := σ' }, judge st nonipPkt o impl)
+      | _, _, _ => ({ st with unspecified := true }, "unspecified")
+    | _ => ({ st with unspecified := true }, "unspecified")
+  | _ => (st, "bad-line")
+
+def initSpec : OState := {}
 
 end Driver.C08
